@@ -21,7 +21,7 @@ def check(run):
     # ledger half: refused submissions, live vs reopened after every step
     lb = run.tlc_gen("Gen_Ledger.tla", "Gen_Ledger.cfg", 60 if quick else 800, 16, name="genL", seed=run.seed,
                      consts={"MaxBlocks": 8, "NTx": 3, "MaxTxPerBlock": 2, "MaxOps": 14})
-    tracecheck.replay_and_validate(run, lb, driver="ledger-replay", driver_args=["-ntx", "3", "-reopen"],
+    tracecheck.replay_and_validate(run, lb, driver="ledger-replay", driver_args=["-ntx", "3", "-reopen", "-faults", "25"],
                                    trace_module="Trace_Ledger.tla", trace_cfg="Trace_Ledger.cfg", name="L")
     # state half
     # state half: (a) live vs reopened after every step, (b) the (j+1)-th storage write of an operation is made to
